@@ -5,6 +5,7 @@
   below, replayed on the implementation by the check, recorded as a known finding).
 -/
 import BloomVerif.Lemmas.Crash
+import BloomVerif.Lemmas.CrashHistory
 namespace BloomVerif.C15
 open BloomVerif BloomVerif.FSStore BloomVerif.Crash
 
@@ -19,12 +20,94 @@ theorem C15_flush_partial (c : CFS) (b : String) (chunks : List Bytes) (n : Nat)
   · exact flush_power_loss_aux c b chunks n r hb hf hp
   · subst hp; exact flush_process_crash_aux c b chunks n hb hf
 
+/-- witness directory: it already holds one flushed, durable file -/
+private def nv_c0 : CFS := run {} (flushOps "s1" [[7]])
+/-- witness power loss: every name reverts to the last directory fsync, every inode to its fsynced prefix -/
+private def nv_revert (c : CFS) : Recovered := ⟨c.dur, fun i => (c.cur.data i).take (syncedLen c i)⟩
+/-- witness power loss: the current names survive, but of every inode only its fsynced prefix -/
+private def nv_torn (c : CFS) : Recovered := ⟨c.cur.names, fun i => (c.cur.data i).take (syncedLen c i)⟩
+
+/-- non-vacuity: the premises of `C15_flush_partial` hold for a two-chunk flush into a directory that already holds a durable file, cut after the rename and before the directory fsync, under a power loss that reverts the names (first disjunct; the second is `Or.inr rfl`); the pointer is then absent -/
+example : ∃ r, dat "out" ≠ tmp "out" ∧ FreshFor nv_c0 "out" ∧
+    PowerLoss (run nv_c0 ((flushOps "out" [[1, 2], [3]]).take 6)) r ∧
+    (PowerLoss (run nv_c0 ((flushOps "out" [[1, 2], [3]]).take 6)) r ∨
+      r = processCrash (run nv_c0 ((flushOps "out" [[1, 2], [3]]).take 6))) ∧
+    recoveredDat r "out" = none := by
+  have hfresh : FreshFor nv_c0 "out" := by
+    have e : nv_c0 = ⟨⟨[("s1.dat", 1)], [(0, []), (1, [7])], 2⟩, [("s1.dat", 1)], [(1, 1)]⟩ := by decide
+    rw [e]
+    refine ⟨by decide, by decide, by decide, by decide, ?_, ?_, ?_, by decide⟩
+    · intro p i h; show i < 2
+      simp only [FS.lookup, List.lookup_cons, List.lookup_nil] at h
+      split at h <;> simp at h; omega
+    · intro p i h; show i < 2
+      simp only [List.lookup_cons, List.lookup_nil] at h
+      split at h <;> simp at h; omega
+    · intro i h; show i < 2
+      simp only [List.lookup_cons, List.lookup_nil] at h
+      split at h
+      · simp_all
+      · split at h <;> simp_all
+  have hp : PowerLoss (run nv_c0 ((flushOps "out" [[1, 2], [3]]).take 6))
+      (nv_revert (run nv_c0 ((flushOps "out" [[1, 2], [3]]).take 6))) := by
+    have e : run nv_c0 ((flushOps "out" [[1, 2], [3]]).take 6) =
+      ⟨⟨[("s1.dat", 1), ("out.dat", 3)], [(0, []), (1, [7]), (2, []), (3, [1, 2, 3])], 4⟩,
+        [("s1.dat", 1)], [(3, 3), (1, 1)]⟩ := by decide
+    rw [e]
+    refine ⟨fun p i h => Or.inr h, fun p h => h.symm, fun i => ⟨_, Nat.le_refl _, ?_, rfl⟩⟩
+    by_cases h3 : i = 3
+    · subst h3; decide
+    by_cases h1 : i = 1
+    · subst h1; decide
+    have h3' : (i == 3) = false := by simpa using h3
+    have h1' : (i == 1) = false := by simpa using h1
+    simp only [syncedLen, List.lookup_cons, List.lookup_nil, h3', h1']
+    exact Nat.zero_le _
+  exact ⟨_, by decide, hfresh, hp, Or.inl hp, by decide⟩
+
+/-- non-vacuity: the process-crash disjunct of `C15_flush_partial` at the same cut; the theorem applies and the complete file is seen -/
+example : recoveredDat (processCrash (run nv_c0 ((flushOps "out" [[1, 2], [3]]).take 6))) "out" = some [1, 2, 3] := by decide
+
 /-- Every row acknowledged before the crash survives it: the acknowledgement comes after Close
     returned, i.e. after the whole protocol including the directory fsync. -/
 theorem acknowledged_rows_survive (c : CFS) (b : String) (chunks : List Bytes) (r : Recovered)
     (hb : dat b ≠ tmp b) (hf : FreshFor c b) (hp : PowerLoss (run c (flushOps b chunks)) r) :
     recoveredDat r b = some chunks.flatten :=
   flush_durable_after_close_aux c b chunks r hb hf hp
+
+/-- non-vacuity: the premises of `acknowledged_rows_survive` hold for the completed two-chunk flush into a directory holding a durable file, under the most destructive power loss (names revert to the last directory fsync, data to the fsynced prefix); the complete file survives -/
+example : ∃ r, dat "out" ≠ tmp "out" ∧ FreshFor nv_c0 "out" ∧
+    PowerLoss (run nv_c0 (flushOps "out" [[1, 2], [3]])) r ∧ recoveredDat r "out" = some [1, 2, 3] := by
+  have hfresh : FreshFor nv_c0 "out" := by
+    have e : nv_c0 = ⟨⟨[("s1.dat", 1)], [(0, []), (1, [7])], 2⟩, [("s1.dat", 1)], [(1, 1)]⟩ := by decide
+    rw [e]
+    refine ⟨by decide, by decide, by decide, by decide, ?_, ?_, ?_, by decide⟩
+    · intro p i h; show i < 2
+      simp only [FS.lookup, List.lookup_cons, List.lookup_nil] at h
+      split at h <;> simp at h; omega
+    · intro p i h; show i < 2
+      simp only [List.lookup_cons, List.lookup_nil] at h
+      split at h <;> simp at h; omega
+    · intro i h; show i < 2
+      simp only [List.lookup_cons, List.lookup_nil] at h
+      split at h
+      · simp_all
+      · split at h <;> simp_all
+  have hp : PowerLoss (run nv_c0 (flushOps "out" [[1, 2], [3]])) (nv_revert (run nv_c0 (flushOps "out" [[1, 2], [3]]))) := by
+    have e : run nv_c0 (flushOps "out" [[1, 2], [3]]) =
+      ⟨⟨[("s1.dat", 1), ("out.dat", 3)], [(0, []), (1, [7]), (2, []), (3, [1, 2, 3])], 4⟩,
+        [("s1.dat", 1), ("out.dat", 3)], [(3, 3), (1, 1)]⟩ := by decide
+    rw [e]
+    refine ⟨fun p i h => Or.inr h, fun p h => h.symm, fun i => ⟨_, Nat.le_refl _, ?_, rfl⟩⟩
+    by_cases h3 : i = 3
+    · subst h3; decide
+    by_cases h1 : i = 1
+    · subst h1; decide
+    have h3' : (i == 3) = false := by simpa using h3
+    have h1' : (i == 1) = false := by simpa using h1
+    simp only [syncedLen, List.lookup_cons, List.lookup_nil, h3', h1']
+    exact Nat.zero_le _
+  exact ⟨_, by decide, hfresh, hp, acknowledged_rows_survive nv_c0 "out" [[1, 2], [3]] _ (by decide) hfresh hp⟩
 
 /-- A failed (aborted) flush never surfaces content: no row that was answered with an error can
     appear after a crash. -/
@@ -34,12 +117,108 @@ theorem aborted_flush_invisible (c : CFS) (b : String) (chunks : List Bytes) (n 
     recoveredDat r b = none ∨ recoveredDat r b = some [] :=
   aborted_flush_aux c b chunks n r hb hf hp
 
+/-- non-vacuity: the premises of `aborted_flush_invisible` hold for a two-chunk flush aborted after both writes, cut before the removals, under a power loss that keeps the names but drops unsynced data; the pointer is an empty reservation -/
+example : ∃ r, dat "out" ≠ tmp "out" ∧ FreshFor nv_c0 "out" ∧
+    PowerLoss (run nv_c0 ((abortedFlushOps "out" [[1, 2], [3]]).take 4)) r ∧ recoveredDat r "out" = some [] := by
+  have hfresh : FreshFor nv_c0 "out" := by
+    have e : nv_c0 = ⟨⟨[("s1.dat", 1)], [(0, []), (1, [7])], 2⟩, [("s1.dat", 1)], [(1, 1)]⟩ := by decide
+    rw [e]
+    refine ⟨by decide, by decide, by decide, by decide, ?_, ?_, ?_, by decide⟩
+    · intro p i h; show i < 2
+      simp only [FS.lookup, List.lookup_cons, List.lookup_nil] at h
+      split at h <;> simp at h; omega
+    · intro p i h; show i < 2
+      simp only [List.lookup_cons, List.lookup_nil] at h
+      split at h <;> simp at h; omega
+    · intro i h; show i < 2
+      simp only [List.lookup_cons, List.lookup_nil] at h
+      split at h
+      · simp_all
+      · split at h <;> simp_all
+  have hp : PowerLoss (run nv_c0 ((abortedFlushOps "out" [[1, 2], [3]]).take 4))
+      (nv_torn (run nv_c0 ((abortedFlushOps "out" [[1, 2], [3]]).take 4))) := by
+    have e : run nv_c0 ((abortedFlushOps "out" [[1, 2], [3]]).take 4) =
+      ⟨⟨[("s1.dat", 1), ("out.dat", 2), ("out.tmp", 3)], [(0, []), (1, [7]), (2, []), (3, [1, 2, 3])], 4⟩,
+        [("s1.dat", 1)], [(1, 1)]⟩ := by decide
+    rw [e]
+    refine ⟨fun p i h => Or.inl h, fun p _ => rfl, fun i => ⟨_, Nat.le_refl _, ?_, rfl⟩⟩
+    by_cases h1 : i = 1
+    · subst h1; decide
+    have h1' : (i == 1) = false := by simpa using h1
+    simp only [syncedLen, List.lookup_cons, List.lookup_nil, h1']
+    exact Nat.zero_le _
+  exact ⟨_, by decide, hfresh, hp, by decide⟩
+
 /-- The same for the whole failure path the engine drives: Abort followed by TombstoneFile. -/
 theorem failed_flush_invisible (c : CFS) (b : String) (chunks : List Bytes) (n : Nat) (r : Recovered)
     (hb : dat b ≠ tmp b) (hf : FreshFor c b)
     (hp : PowerLoss (run c ((failedFlushOps b chunks).take n)) r ∨ r = processCrash (run c ((failedFlushOps b chunks).take n))) :
     recoveredDat r b = none ∨ recoveredDat r b = some [] :=
   failed_flush_aux c b chunks n r hb hf hp
+
+/-- Over whole histories: run any sequence of successful and failed flushes with distinct names from the
+    empty directory and stop at ANY filesystem mutation boundary `n`. Every flush that completed before
+    that boundary is bound, currently and durably, to its complete fsynced content there … -/
+theorem C15_history_acknowledged_durable (fs : List Flush) (k n : Nat) (f : Flush)
+    (hg : GoodNames fs) (hk : k ≤ fs.length) (hn : (historyOps (fs.take k)).length ≤ n)
+    (hmem : f ∈ fs.take k) (hok : f.ok = true) :
+    crash_Final f.base f.chunks.flatten (run {} ((historyOps fs).take n)) :=
+  history_completed_flushes_durable fs k n f hg hk hn hmem hok
+
+/-- … hence survives a process crash and every power-loss state at that boundary … -/
+theorem C15_history_survives_crash (fs : List Flush) (k n : Nat) (f : Flush) (r : Recovered)
+    (hg : GoodNames fs) (hk : k ≤ fs.length) (hn : (historyOps (fs.take k)).length ≤ n)
+    (hmem : f ∈ fs.take k) (hok : f.ok = true)
+    (hp : PowerLoss (run {} ((historyOps fs).take n)) r ∨ r = processCrash (run {} ((historyOps fs).take n))) :
+    recoveredDat r f.base = some f.chunks.flatten := by
+  have hfin := history_completed_flushes_durable fs k n f hg hk hn hmem hok
+  rcases hp with hp | hp
+  · exact crash_Final_power f.base _ _ r hfin hp
+  · subst hp
+    obtain ⟨i, h1, _, h3, _⟩ := hfin
+    simp [recoveredDat, processCrash, FS.lookup] at *
+    exact ⟨i, h1, h3⟩
+
+/-- … and a flush that failed never has content under its final name at any boundary of the history. -/
+theorem C15_history_failed_invisible (fs : List Flush) (n : Nat) (f : Flush) (r : Recovered)
+    (hg : GoodNames fs) (hmem : f ∈ fs) (hok : f.ok = false)
+    (hp : PowerLoss (run {} ((historyOps fs).take n)) r) :
+    recoveredDat r f.base = none ∨ recoveredDat r f.base = some [] :=
+  crash_Empty_power f.base _ r (history_failed_flushes_invisible fs n f hg hmem hok) hp
+
+/-- non-vacuity: the premises of `failed_flush_invisible` hold for a two-chunk flush that fails after both writes, cut after Abort removed the temp file, under a power loss that keeps the names but drops unsynced data (first disjunct; the second is `Or.inr rfl`); the pointer is an empty reservation -/
+example : ∃ r, dat "out" ≠ tmp "out" ∧ FreshFor nv_c0 "out" ∧
+    (PowerLoss (run nv_c0 ((failedFlushOps "out" [[1, 2], [3]]).take 5)) r ∨
+      r = processCrash (run nv_c0 ((failedFlushOps "out" [[1, 2], [3]]).take 5))) ∧
+    recoveredDat r "out" = some [] := by
+  have hfresh : FreshFor nv_c0 "out" := by
+    have e : nv_c0 = ⟨⟨[("s1.dat", 1)], [(0, []), (1, [7])], 2⟩, [("s1.dat", 1)], [(1, 1)]⟩ := by decide
+    rw [e]
+    refine ⟨by decide, by decide, by decide, by decide, ?_, ?_, ?_, by decide⟩
+    · intro p i h; show i < 2
+      simp only [FS.lookup, List.lookup_cons, List.lookup_nil] at h
+      split at h <;> simp at h; omega
+    · intro p i h; show i < 2
+      simp only [List.lookup_cons, List.lookup_nil] at h
+      split at h <;> simp at h; omega
+    · intro i h; show i < 2
+      simp only [List.lookup_cons, List.lookup_nil] at h
+      split at h
+      · simp_all
+      · split at h <;> simp_all
+  have hp : PowerLoss (run nv_c0 ((failedFlushOps "out" [[1, 2], [3]]).take 5))
+      (nv_torn (run nv_c0 ((failedFlushOps "out" [[1, 2], [3]]).take 5))) := by
+    have e : run nv_c0 ((failedFlushOps "out" [[1, 2], [3]]).take 5) =
+      ⟨⟨[("s1.dat", 1), ("out.dat", 2)], [(0, []), (1, [7]), (2, []), (3, [1, 2, 3])], 4⟩,
+        [("s1.dat", 1)], [(1, 1)]⟩ := by decide
+    rw [e]
+    refine ⟨fun p i h => Or.inl h, fun p _ => rfl, fun i => ⟨_, Nat.le_refl _, ?_, rfl⟩⟩
+    by_cases h1 : i = 1
+    · subst h1; decide
+    have h1' : (i == 1) = false := by simpa using h1
+    simp only [syncedLen, List.lookup_cons, List.lookup_nil, h1']
+    exact Nat.zero_le _
+  exact ⟨_, by decide, hfresh, Or.inl hp, by decide⟩
 
 /-- The full statement is false for merges: a crash in the window between publishing the output and
     removing the sources shows every merged row twice … -/
